@@ -364,6 +364,7 @@ def guided(seed, n_ops, profile, welcome_error=None, finish_run=False):
         ops = []
         code = "%d-%s" % (rng.choice([4, 17, 123]), rng.choice(WORDS))
         st = dict(code_started=False, closed=False, peer_started=[False] * (npeers + 1), sent=0, helper_stage=0)
+        st["t_close"] = rng.randrange(0, 8) if rng.random() < 0.15 else rng.randrange(int(n_ops * 0.3), n_ops + 1)
         mode = {"allocate": "allocate", "input": "input"}.get(profile, "set")
 
         def emit(op):
@@ -406,6 +407,9 @@ def guided(seed, n_ops, profile, welcome_error=None, finish_run=False):
                 # re-submitted by the next drain, in submission order)
                 if len(c0.conn.c2s) >= 2:
                     pdrop *= 6
+                # … and once peer messages have been processed: every re-open replays the whole mailbox
+                if c0.boss._M._processed and rng.random() < 0.5:
+                    pdrop *= 3
                 choices += [["drop", 0]] * pdrop
                 if len(W.msg_frames(0)) >= 1 and rng.random() < 0.3:
                     choices += [["dupmsg", 0, rng.randrange(4)]]
@@ -442,8 +446,17 @@ def guided(seed, n_ops, profile, welcome_error=None, finish_run=False):
                         choices += [["api", 0, "choose_nameplate", "x1"]]
                 if st["sent"] < 4:
                     choices += [["api", 0, "send", "%02x" % st["sent"] * (1 + st["sent"])]] * 2
-            pclose = 1 if len(ops) < n_ops * 0.6 else 4
-            choices += [["api", 0, "close"]] * pclose
+            # close() at a pre-drawn moment (early in 15 % of the runs, otherwise spread over the run),
+            # then occasionally again
+            if not st["closed"]:
+                if len(ops) >= st["t_close"]:
+                    choices += [["api", 0, "close"]] * 6
+            elif rng.random() < 0.05:
+                choices += [["api", 0, "close"]]
+            if any(n == "closed" for n, _ in c0.events):
+                st["after_closed"] = st.get("after_closed", 0) + 1
+                if st["after_closed"] > 6:
+                    break
             # peers
             for p in range(1, npeers + 1):
                 cp = W.clients[p]
